@@ -21,7 +21,8 @@ pub const G_M: usize = 3; // M {m: u16}
 pub const G_CFGA: usize = 4; // unit struct, Inner = u8
 pub const G_CFGB: usize = 5; // unit struct, Inner = u8 (same Inner as A)
 pub const G_CFGC: usize = 6; // unit struct, Inner = N
-pub const G_D: usize = 7; // the definition under test
+pub const G_B: usize = 7; // B<T, S, V> {inner: Vec<T>, extra: V} with S (in the middle) skipped - the BoundedVec shape
+pub const G_D: usize = 8; // the definition under test
 
 #[derive(Clone, Copy, Debug, PartialEq, Eq, Hash, Serialize, Deserialize)]
 pub enum BodyForm {
@@ -119,6 +120,9 @@ pub fn generic_type_alphabet(params: ParamForm, include_cf3: bool) -> Vec<Ty> {
             // the parameter under a transparent wrapper BELOW field level (not CF3): the element id is the
             // parameter's id while its written name is `Box<T>`
             Ty::Vec(b(Ty::Box(b(t.clone())))),
+            // a helper with a skipped parameter in the MIDDLE, the parameter before and behind it
+            Ty::Named(G_B, vec![t.clone(), Ty::Named(G_M, vec![]), U8]),
+            Ty::Named(G_B, vec![U8, Ty::Named(G_M, vec![]), t.clone()]),
         ]);
         if include_cf3 {
             v.push(Ty::Box(b(t.clone())));
@@ -200,6 +204,9 @@ pub fn generic_defs() -> Vec<Def> {
             ..Def::strukt(&["p", "cfg"], name, &[], Fields::Unit)
         });
     }
+    let mut bounded = Def::strukt(&["p", "a"], "B", &["T", "S", "V"], named(vec![("inner", Ty::Vec(b(Ty::Param(0)))), ("extra", Ty::Param(2))]));
+    bounded.params[1].skipped = true;
+    defs.push(bounded);
     defs
 }
 
